@@ -189,6 +189,43 @@ def _starts(n):
     return [[0, 0], [0, m], [m, m], [m, n - 1], [n - 1, 1]]
 
 
+NEGATIVE_C = -15.0
+
+
+def _special_points(matname, knd, lo, hi, declared):
+    """Temperatures the code may treat specially: exactly 0.0 C (falsy) and a negative one, wherever the
+    material's stated range admits them (closed interval); a solid that states no range for a
+    correlation it does define admits them too (nothing is stated that they could violate)."""
+    if declared:
+        ok = lambda t: lo - 1e-9 <= t <= hi + 1e-9  # noqa: E731
+        pts = [0.0] if ok(0.0) else []
+        if lo < -1e-6:
+            pts.append(NEGATIVE_C if ok(NEGATIVE_C) else lo / 2.0)
+        return pts
+    if knd == "solid":
+        r = _Ref(matname)
+        if r.expands(lo, hi) and r.expands(0.0, hi) and r.expands(NEGATIVE_C, 0.0):
+            return [0.0, NEGATIVE_C]
+    return []
+
+
+SPECIAL_POINT_SHAPES = ("circle", "helix", "unshapedcomponent")  # the factor logic is shape-independent
+
+
+def _grid_for(matname, knd, n, special=True):
+    """(temperatures, starts, lo, hi, labels, declared): the n-point grid over the stated range, followed
+    by the special points; starts = the usual five plus starts whose Tinput / Thot is a special point."""
+    lo, hi, labels, declared = _range_for(matname, knd)
+    T = matlib.grid(lo, hi, n)
+    starts = _starts(n)
+    sp = _special_points(matname, knd, lo, hi, declared) if special else []
+    for k, t in enumerate(sp):
+        i = len(T)
+        T.append(t)
+        starts += [[i, i], [i, n - 1]] if k == 0 else [[i, n // 2]]
+    return T, starts, lo, hi, labels, declared
+
+
 def _paths(n, maxlen):
     out = []
     for L in range(maxlen + 1):
@@ -225,6 +262,9 @@ def items(ctx):
             continue
         for sh in TINY_SHAPES:
             out.append({"kind": "tiny", "shape": sh, "material": mname, "npts": npts, "scale": scale, "reps": list(TINY_REPS if ctx.quick else TINY_REPS_THOROUGH)})
+    for method in ("strings", "setLink"):
+        for order in itertools.permutations(("clad", "liner", "gap", "gap2")):
+            out.append({"kind": "chain", "method": method, "order": list(order), "maxlen": maxlen, "scale": scale})
     for mname, knd in mats:
         if knd != "solid":
             continue
@@ -280,14 +320,13 @@ def _eval_single(case):
     """Enumerate every start x path of one (shape, material) pair (or just the recorded one)."""
     shape, matname, scale = case["shape"], case["material"], case["scale"]
     knd = matlib.kind(matlib.cls_of(matname))
-    lo, hi, labels, declared = _range_for(matname, knd)
     n = case["npts"]
-    T = matlib.grid(lo, hi, n)
-    starts = [case["start"]] if "start" in case else _starts(n)
+    T, all_starts, lo, hi, labels, declared = _grid_for(matname, knd, n, special=shape in SPECIAL_POINT_SHAPES)
+    starts = [case["start"]] if "start" in case else all_starts
     if "path" in case:
         paths = [case["path"]] + ([case["other"]] if "other" in case else [])
     else:
-        paths = _paths(n, case["maxlen"])
+        paths = _paths(len(T), case["maxlen"])
     ref = _Ref(matname)
     vs = []
     st = {"exec": 0, "nontrivial": 0, "steps": 0, "refused_states": 0, "checked_states": 0, "hotsets": 0, "zero_mass": 0, "fvals": set(), "refuse_exc": set(), "_bad_in_exec": False}
@@ -546,8 +585,7 @@ def _eval_tiny(case):
     jump; compare with the single jump to the same temperatures and with the closed-form oracle."""
     shape, matname, scale, n = case["shape"], case["material"], case["scale"], case["npts"]
     knd = matlib.kind(matlib.cls_of(matname))
-    lo, hi, labels, declared = _range_for(matname, knd)
-    G = matlib.grid(lo, hi, n)
+    G, _, lo, hi, labels, declared = _grid_for(matname, knd, n)
     ref = _Ref(matname)
     vs = []
     st = {"exec": 0, "nontrivial": 0, "steps": 0, "refused_states": 0, "checked_states": 0, "hotsets": 0, "zero_mass": 0, "fvals": set(), "refuse_exc": set(), "_bad_in_exec": False}
@@ -562,7 +600,7 @@ def _eval_tiny(case):
     if "d" in case:
         combos = [(case["start"], case["sign"], case["d"], case["k"])]
     else:
-        combos = [(sti, sg, d, k) for sti in ([1, 1], [0, n // 2 + 1]) for sg in (1, -1) for d in TINY_STEPS_C for k in case["reps"]]
+        combos = [(sti, sg, d, k) for sti in ([[1, 1], [0, n // 2 + 1]] + ([[n, n]] if len(G) > n and G[n] == 0.0 else [])) for sg in (1, -1) for d in TINY_STEPS_C for k in case["reps"]]
     collapse = case.get("collapse")
     cur = {}
 
@@ -616,8 +654,8 @@ BOND_MAT = "Sodium"
 
 
 def _linked_grid(matname):
-    lo, hi, _, _ = matlib.stated_range_C(matname, "linearExpansionPercent")
-    return matlib.grid(lo, hi, 3)
+    lo, hi, _, declared = matlib.stated_range_C(matname, "linearExpansionPercent")
+    return matlib.grid(lo, hi, 3) + _special_points(matname, "solid", lo, hi, declared)[:1]
 
 
 def _build_linked(cfg, matname, Tf, Tcl, scale):
@@ -654,7 +692,7 @@ def _eval_linked(case):
     Tf = _linked_grid(matname)
     Tcl = _linked_grid(CLAD_MAT)
     Tb = [200.0, 500.0]
-    ops = [["fuel", i] for i in range(3)] + [["clad", i] for i in range(3)] + ([["bond", 1]] if cfg == "pin" else [])
+    ops = [["fuel", i] for i in range(len(Tf))] + [["clad", i] for i in range(len(Tcl))] + ([["bond", 1]] if cfg == "pin" else [])
     if "path" in case:
         paths = [case["path"]]
     else:
@@ -791,6 +829,150 @@ def _eval_linked(case):
 
 
 # ---------------------------------------------------------------------------------------------
+# chains of links: A.x <- B.y <- C.z, built in every order, then each member gets a value of its own
+#
+#   clad (HT9)   id, od own                      liner (HT9)  od <- clad.id           (length 1)
+#   gap  (Void)  id <- liner.od, od <- clad.id   (length 2)   gap2 (Void) id <- gap.id, od <- clad.id (length 3)
+#
+# Reference model: every (component, dimension) is either an own cold number or a link; a link reads the
+# CURRENT value of the component it names - whatever that component's dimension is at that moment.
+
+CHAIN_DIMS = {
+    "clad": {"od": 1.2, "id": 1.0, "mult": 7.0},
+    "liner": {"od": "clad.id", "id": 0.9, "mult": 7.0},
+    "gap": {"od": "clad.id", "id": "liner.od", "mult": 7.0},
+    "gap2": {"od": "clad.id", "id": "gap.id", "mult": 7.0},
+}
+CHAIN_MATS = {"clad": "HT9", "liner": "HT9", "gap": "Void", "gap2": "Void"}
+CHAIN_SET_TARGETS = (("clad", "id", 1.01), ("liner", "od", 0.98), ("gap", "id", 0.97))
+
+
+def _chain_ops():
+    ops = [["T", "clad", 0], ["T", "clad", 2], ["T", "liner", 0], ["T", "liner", 2]]
+    for cn, dn, v in CHAIN_SET_TARGETS:
+        ops += [["set", cn, dn, v, True], ["set", cn, dn, v, False]]
+    return ops
+
+
+def _eval_chain(case):
+    from armi.reactor import blocks
+    from armi.reactor.components import basicShapes
+
+    method, order, scale = case["method"], case["order"], case["scale"]
+    Tg = matlib.grid(*matlib.stated_range_C("HT9", "linearExpansionPercent")[:2], 3)
+    ref = _Ref("HT9")
+    ops = _chain_ops()
+    if "path" in case:
+        paths = [case["path"]]
+    else:
+        paths = [list(p) for L in range(case["maxlen"] + 1) for p in itertools.product(ops, repeat=L)]
+    vs = []
+    st = {"exec": 0, "nontrivial": 0, "steps": 0, "refused_states": 0, "checked_states": 0, "hotsets": 0, "zero_mass": 0, "fvals": set(), "refuse_exc": set(), "_bad_in_exec": False}
+    collapse = case.get("collapse")
+
+    def bad(clause, disc, msg, path):
+        if len(vs) >= MAX_V or st["_bad_in_exec"]:
+            return
+        st["_bad_in_exec"] = True
+        cc = {k: case[k] for k in ("kind", "method", "order", "maxlen", "scale")}
+        cc["path"] = path
+        if collapse:
+            cc["collapse"] = True
+        vs.append(core.viol("c03/%s/%s" % (clause, "many" if collapse else disc), "link chain (%s, resolved in order %s) after %s: %s" % (method, order, path, msg), cc))
+
+    def run_one(path):
+        b = blocks.HexBlock("blk", height=HEIGHT)
+        comps, model, temp = {}, {}, {}
+        for cn in ("clad", "liner", "gap", "gap2"):
+            dims = {}
+            for dn, v in CHAIN_DIMS[cn].items():
+                own = not isinstance(v, str)
+                val = v * scale if own and dn != "mult" else v
+                model[(cn, dn)] = ("val", val) if own else ("link", tuple(v.split(".")))
+                # with setLink the linked dimension starts as a placeholder number
+                dims[dn] = val if own or method == "strings" else 0.5
+            comps[cn] = basicShapes.Circle(cn, matlib.cls_of(CHAIN_MATS[cn])(), Tg[0], Tg[1], **dims)
+            temp[cn] = 1
+            b.add(comps[cn])
+        # establish the links, one component at a time, in the order under test
+        for cn in order:
+            if method == "strings":
+                comps[cn].resolveLinkedDims(comps)
+            else:
+                for dn, v in CHAIN_DIMS[cn].items():
+                    if isinstance(v, str):
+                        tn, tdn = v.split(".")
+                        comps[cn].setLink(dn, comps[tn], tdn)
+
+        def f(cn):
+            return ref.f(Tg[0], Tg[temp[cn]]) if CHAIN_MATS[cn] == "HT9" else 1.0
+
+        def want(cn, dn):
+            kind_, v = model[(cn, dn)]
+            if kind_ == "link":
+                return want(*v)
+            return v * f(cn) if dn in ("od", "id") else v
+
+        changed = False
+        for k in range(len(path) + 1):
+            if k > 0:
+                op = path[k - 1]
+                st["steps"] += 1
+                if op[0] == "T":
+                    changed = changed or temp[op[1]] != op[2]
+                    temp[op[1]] = op[2]
+                    comps[op[1]].setTemperature(Tg[op[2]])
+                else:
+                    _, cn, dn, v, cold = op
+                    v = v * scale
+                    changed = True
+                    comps[cn].setDimension(dn, v, cold=cold)
+                    st["hotsets"] += 0 if cold else 1
+                    model[(cn, dn)] = ("val", v if cold else v / f(cn))
+            cur = path[:k]
+            st["checked_states"] += 1
+            st["fvals"].add((round(f("clad"), 12), round(f("liner"), 12)))
+            for (cn, dn), (kind_, v) in sorted(model.items()):
+                got = comps[cn].getDimension(dn)
+                w = want(cn, dn)
+                if _rel(got, w) > TOL:
+                    bad("chain-dimension", "%s.%s" % (cn, dn), "%s.%s reads %r, the model (own numbers x f, links read the current value of their target) gives %r" % (cn, dn, got, w), cur)
+                if kind_ == "link":
+                    tgt = comps[v[0]].getDimension(v[1])
+                    if got != tgt:
+                        bad("link-not-current", "chain.%s.%s<-%s.%s" % (cn, dn, v[0], v[1]), "%s.%s reads %r but the dimension it is linked to, %s.%s, is currently %r" % (cn, dn, got, v[0], v[1], tgt), cur)
+                    if not comps[cn].dimensionIsLinked(dn):
+                        bad("link-lost", "chain.%s.%s" % (cn, dn), "%s.%s is no longer a link" % (cn, dn), cur)
+                elif comps[cn].dimensionIsLinked(dn):
+                    bad("link-survives-own-value", "chain.%s.%s" % (cn, dn), "%s.%s was given a value of its own but is still a link" % (cn, dn), cur)
+            for cn, c in comps.items():
+                od, idd, mult = want(cn, "od"), want(cn, "id"), want(cn, "mult")
+                wa = PI / 4.0 * (od * od - idd * idd) * mult
+                a = c.getArea()
+                if abs(a - wa) > 1e-9 * max(abs(wa), od * od):
+                    bad("link-area", "chain.%s" % cn, "%s area %r expected %r from the current diameters" % (cn, a, wa), cur)
+                vol = c.getVolume()
+                if abs(vol - a * HEIGHT) > 1e-9 * max(abs(a) * HEIGHT, od * od):
+                    bad("link-volume-stale", "chain.%s" % cn, "%s getVolume %r but current area x height = %r" % (cn, vol, a * HEIGHT), cur)
+        return changed
+
+    for path in paths:
+        st["exec"] += 1
+        st["_bad_in_exec"] = False
+        try:
+            if run_one(path):
+                st["nontrivial"] += 1
+        except Exception as e:  # noqa: BLE001
+            if not _raised_in_armi(e):
+                raise
+            bad("unexpected-exception", "chain/%s" % type(e).__name__, "the component API raised %r" % (e,), path)
+    st.pop("_bad_in_exec", None)
+    st["fvals"] = len(st["fvals"])
+    st["refuse_exc"] = sorted(st["refuse_exc"])
+    return vs, st
+
+
+# ---------------------------------------------------------------------------------------------
 
 
 def _evaluate_counted(case):
@@ -798,6 +980,8 @@ def _evaluate_counted(case):
         return _eval_single(case)
     if case["kind"] == "tiny":
         return _eval_tiny(case)
+    if case["kind"] == "chain":
+        return _eval_chain(case)
     return _eval_linked(case)
 
 
@@ -840,6 +1024,8 @@ def run(ctx):
         ctx.count("executions_" + it["kind"], st["exec"])
         if it["kind"] == "tiny":
             ctx.count("tiny_step_executions", st["exec"])
+        if it["kind"] == "chain":
+            ctx.count("link_chain_executions", st["exec"])
         if it["kind"] == "single":
             ctx.count("executions_shape_" + it["shape"], st["exec"])
             ctx.count("executions_material_kind_" + st["mat_kind"], st["exec"])
@@ -873,6 +1059,9 @@ def run(ctx):
         tiny_steps_C=list(TINY_STEPS_C),
         tiny_step_repetitions=max((it["reps"] for it in its if it["kind"] == "tiny"), default=None),
         tiny_step_shapes=list(TINY_SHAPES),
+        special_temperatures_C=[0.0, NEGATIVE_C],
+        special_temperature_shapes=list(SPECIAL_POINT_SHAPES),
+        link_chain_configurations=sum(1 for it in its if it["kind"] == "chain"),
         states_checked=tot["checked_states"],
         states_refused=tot["refused_states"],
         hot_setDimension_checks=tot["hotsets"],
@@ -881,6 +1070,8 @@ def run(ctx):
         "temperatures are drawn from an n-point grid over the range each material states for its expansion correlation (20-800 C when it states none); errors between grid points or outside the range are not seen",
         "the expansion correlation itself (linearExpansionPercent on a parent-less instance) is the trusted oracle input; its plausibility is C19's subject",
         "near-coincident temperatures: steps of +-{1e-11 .. 1e-2} C repeated 1/10/1000 times (thorough: also 20000) from two starts, for every expanding solid x 2 shapes, compared with the single jump at 1e-12; other step sizes, longer accumulations and other shapes are not covered for this clause",
+        "exactly 0.0 C and a negative temperature are grid points, starts (Tinput and Thot) and path members wherever the material's stated range contains them (or it states none), for 3 of the 12 shapes, the linked pin cells and the tiny-step clause",
+        "link chains: one 4-component Circle family (lengths 1-3), links established in all 24 orders by resolveLinkedDims and by setLink, then all paths of bounded length over {temperature of clad/liner, cold and hot setDimension on each chain member}",
         "one valid dimension set per shape class (scaled by a seed-dependent constant); path length bounded",
         "a material that defines no expansion makes every hot-dimension query raise RuntimeError when T != Tinput: counted as refused",
     ]
